@@ -67,6 +67,12 @@ pub fn single_edits(s: &str, alpha: &[&str], each: &mut dyn FnMut(String)) {
                 "0x10".into(),
                 "+1".into(),
             ];
+            for l in [15usize, 16, 31, 32, 63, 64, 255, 256] {
+                for mb in ["é", "€", "😀"] {
+                    reps.push(format!("{}{}", "9".repeat(l), mb));
+                    reps.push(format!("{}{}", "9".repeat(l - 1), mb));
+                }
+            }
             if let Ok(v) = lit.parse::<u128>() {
                 reps.push((v + 1).to_string());
                 reps.push(v.saturating_sub(1).to_string());
@@ -99,6 +105,27 @@ pub fn single_edits(s: &str, alpha: &[&str], each: &mut dyn FnMut(String)) {
                 let mut p = parts.clone();
                 p.swap(k, k + 1);
                 each(p.join(&sp));
+            }
+        }
+        // one segment repeated many times (fixed-size tables, per-call caps)
+        for k in [0, parts.len() / 2, parts.len() - 1] {
+            for times in [7usize, 15, 16, 17, 31, 33, 63, 65, 130] {
+                let mut p: Vec<&str> = parts[..=k].to_vec();
+                for _ in 0..times {
+                    p.push(parts[k]);
+                }
+                p.extend_from_slice(&parts[k + 1..]);
+                each(p.join(&sp));
+            }
+        }
+        // a fresh well-formed key=value segment appended many times
+        if sep == ';' {
+            for times in [7usize, 16, 17, 33, 65] {
+                let mut t = s.to_string();
+                for i in 0..times {
+                    t.push_str(&format!(";k{i}=1"));
+                }
+                each(t);
             }
         }
     }
@@ -751,6 +778,17 @@ fn structural_edits(pkg: &Value) -> Vec<(String, Value)> {
         p["version"] = json!(v);
         out.push((format!("version -> {v}"), p));
     }
+    // the envelope stripped or re-nested: only a complete package may restore
+    out.push(("version: bare snapshot object without its envelope".into(), pkg["snapshot"].clone()));
+    {
+        let mut inner = pkg["snapshot"].clone();
+        if let Some(p) = inner.get("price").and_then(|p| p.as_u64()) {
+            inner["price"] = json!(p.wrapping_add(1));
+        }
+        out.push(("version: bare snapshot object with an edited price".into(), inner));
+        out.push(("version: package nested inside a package".into(), json!({"version": 1, "snapshot": pkg.clone(), "checksum": pkg["checksum"].clone()})));
+        out.push(("version: array around the package".into(), json!([pkg.clone()])));
+    }
     let cs = pkg["checksum"].as_str().unwrap_or("").to_string();
     let mut cvars: Vec<String> = vec![
         String::new(),
@@ -776,7 +814,22 @@ fn structural_edits(pkg: &Value) -> Vec<(String, Value)> {
 pub fn run_c09(tier: &str) -> i32 {
     let full = tier != "quick";
     let mut report = Report::new("C09", tier, "fault_enumeration");
-    let seeds = c09_seed_levels(full);
+    let mut seeds: Vec<(u64, Vec<Ord_>, bool)> = c09_seed_levels(full)
+        .into_iter()
+        .enumerate()
+        .map(|(k, l)| (LEVEL_PRICE + k as u64, l, false))
+        .collect();
+    // large levels: the serialized package is longer than typical buffer sizes (4 KiB, 8 KiB); the level price
+    // takes every decimal length so that block boundaries fall on every alignment of the repeating order records
+    let mut p10: u64 = 1;
+    for j in 0..20 {
+        let n = if j % 5 == 4 { 70 } else { 40 };
+        seeds.push((p10, (0..n).map(|i| crate::seq_level::bulk_order(i, LEVEL_PRICE)).collect(), true));
+        p10 = p10.saturating_mul(10).max(1);
+        if j == 18 {
+            p10 = u64::MAX;
+        }
+    }
     let nthreads = crate::seq_checks::threads();
     let next = AtomicUsize::new(0);
     struct Acc {
@@ -806,8 +859,9 @@ pub fn run_c09(tier: &str) -> i32 {
                         capped.store(true, Ordering::Relaxed);
                         break;
                     }
-                    let level = PriceLevel::new(LEVEL_PRICE + k as u64);
-                    for o in &seeds[k] {
+                    let (seed_price, seed_orders, big) = (seeds[k].0, &seeds[k].1, seeds[k].2);
+                    let level = PriceLevel::new(seed_price);
+                    for o in seed_orders {
                         level.add_order(*o);
                     }
                     let Ok(text) = level.snapshot_to_json() else {
@@ -857,7 +911,12 @@ pub fn run_c09(tier: &str) -> i32 {
                         }
                     };
                     // character-level faults at every offset
-                    let printable: Vec<String> = (0x20u8..0x7f).map(|b| (b as char).to_string()).chain(["é".to_string(), "€".to_string()]).collect();
+                    // large seeds: a reduced character alphabet (every offset is still visited); thorough runs the full one on three of them
+                    let printable: Vec<String> = if big && !(full && k % 7 == 0) {
+                        ["0", "1", "9", "a", "f", "\"", ","].iter().map(|s| s.to_string()).collect()
+                    } else {
+                        (0x20u8..0x7f).map(|b| (b as char).to_string()).chain(["é".to_string(), "€".to_string()]).collect()
+                    };
                     let alpha: Vec<&str> = printable.iter().map(|s| s.as_str()).collect();
                     let idx: Vec<usize> = text.char_indices().map(|(i, _)| i).chain([text.len()]).collect();
                     let n = idx.len() - 1;
@@ -887,7 +946,7 @@ pub fn run_c09(tier: &str) -> i32 {
                         judge(&mut a, name, &p.to_string(), must_fail);
                     }
                     // pairs: structural x structural (content edit followed by a second edit, incl. checksum edits)
-                    if full || k % 9 == 0 {
+                    if (full || k % 9 == 0) && !big {
                         for (n1, p1) in structural.iter() {
                             if n1.starts_with("checksum") || n1.starts_with("version") {
                                 continue;
